@@ -8,7 +8,7 @@ LOOM = "exhaustive thread-interleaving exploration of the real code under loom (
 
 CHECKS = {
  "C05": dict(design="5 (C05)", tech=SEQ,
-   text="Every sequence of vector mutators (all in-range arguments), entry operations, committed transactions, subscription points and poll placements up to depth 4 (quick) / 5 (thorough) on vectors of length <= 4 from every initial length 0..3 is executed on the real ObservableVector with 1-3 real subscribers; after every call the published message must take the pre-state to the post-state, be exactly one diff for a direct call and nothing for the documented no-ops, and every subscriber (plain or batched, however it is polled) must receive exactly the diffs an always-drained batched subscriber received - also when the vector is dropped while diffs are still undelivered (drop epilogue: a stream that ends before it delivered them is reported). Exhaustive within the bounds, which is the right level for an 'all histories, all polling patterns' statement that needs no concurrency.",
+   text="Every sequence of vector mutators (all in-range arguments), entry operations, committed transactions, subscription points and poll placements up to depth 4 (quick) / 5 (thorough) on vectors of length <= 4 from every initial length 0..3 is executed on the real ObservableVector with 1-3 real subscribers; after every call the published message must take the pre-state to the post-state, be exactly one diff for a direct call and nothing for the documented no-ops, and every subscriber (plain or batched, however it is polled) must receive exactly the diffs an always-drained batched subscriber received - also when the vector is dropped while diffs are still undelivered (drop epilogue: a stream that ends before it delivered them is reported). Vectors of 66 and 131 items (beyond one imbl chunk) with operations at the front, the chunk boundary, the middle and the back to depth 2/3 (c05-tree; c06-tree and c17-tree, c20-vec-tree use the same configurations). Exhaustive within the bounds, which is the right level for an 'all histories, all polling patterns' statement that needs no concurrency.",
    note="capacity 16 >= depth (no lag); tokio broadcast, imbl trusted; bounds as in evidence.coverage.bounds"),
  "C06": dict(design="5 (C06)", tech=SEQ,
    text="Capacities 1, 2, 3 (ring of 4) and 16; every sequence over a reduced alphabet (one mutator per diff kind, transactions, polls of manual subscribers) to depth 6-7 (quick) / 7-8 (thorough) plus the full alphabet to depth 4/5 for capacities 1-2. A Reset is accepted only when more than `capacity` messages were pending for that subscriber (counted from message boundaries learned from an always-drained subscriber), must carry the current contents, every Pending answer requires replica == contents, every diff must be applicable, every batched item must bring the replica up to date. A second engine (mc_pause, library built with the pause hooks) enumerates which sender operations run at which pause point inside a poll (before each try_recv of the batched drain loop and of handle_lag), capacities 1-2, depth 5/6: sender/receiver interleavings within one poll.",
